@@ -657,9 +657,58 @@ def impl_extract(psy, path, lo, hi):
         if "appears more than once on the left-hand side" in str(e):
             return ("raises", "NotImplementedError: appears more than once on the left-hand side")
         raise
-    pre = txt.split("PreEndDeclaration", 1)[1].split("PreEnd", 1)[0]
-    post = txt.split("PostStart", 1)[1].split("PostEnd", 1)[0]
-    return ("ok", sorted(x.lower() for x in PV_RE.findall(pre)), sorted(x.lower() for x in PV_RE.findall(post)))
+    return ("ok", parse_protocol(txt))
+
+
+PRESTART_RE = re.compile(r'%\s*PreStart\(\s*"[^"]*"\s*,\s*"[^"]*"\s*,\s*(\d+)\s*,\s*(\d+)\s*\)', re.I)
+DECL_RE = re.compile(r'PreDeclareVariable\("[^"]*",\s*(\w+)\)', re.I)
+
+
+def parse_protocol(txt):
+    """what the GENERATED extraction code does, as data (a missing call is recorded, never an exception):
+    counts announced by PreStart, variables declared, provided before the region (between PreStart and PreEnd) and
+    after it (between PostStart and PostEnd)"""
+    lines = txt.split("\n")
+
+    def first(pat, start=0):
+        for i in range(start, len(lines)):
+            if re.search(pat, lines[i], re.I):
+                return i
+        return None
+    i_start = first(r"%\s*PreStart\b")
+    i_preend = first(r"%\s*PreEnd\b(?!Declaration)")
+    i_poststart = first(r"%\s*PostStart\b")
+    i_postend = first(r"%\s*PostEnd\b")
+    m = PRESTART_RE.search(lines[i_start]) if i_start is not None else None
+
+    def provided(a, b):
+        if a is None or b is None:
+            return []
+        return sorted(x.lower() for ln in lines[a:b] for x in PV_RE.findall(ln))
+    return {"prestart_counts": (int(m.group(1)), int(m.group(2))) if m else None,
+            "declared": sorted(x.lower() for ln in lines for x in DECL_RE.findall(ln)),
+            "pre": provided(i_start, i_preend), "post": provided(i_poststart, i_postend),
+            "calls": {k: v is not None for k, v in (("PreStart", i_start), ("PreEndDeclaration", first(r"PreEndDeclaration")),
+                                                     ("PreEnd", i_preend), ("PostStart", i_poststart), ("PostEnd", i_postend))},
+            "psydata_lines": [ln.strip() for ln in lines if "extract_psy_data %" in ln][:40]}
+
+
+def protocol_errors(proto, ins, outs):
+    """(b) the oracle on the generated code: every reported input is declared and provided before the region, every
+    reported output is declared and provided after it, and PreStart announces exactly these numbers"""
+    errs = []
+    if proto["prestart_counts"] != (len(ins), len(outs)):
+        errs.append("PreStart announces %s, reported lists have (%d, %d)" % (proto["prestart_counts"], len(ins), len(outs)))
+    if sorted(proto["pre"]) != sorted(ins):
+        errs.append("provided before the region: %s, reported inputs: %s" % (proto["pre"], ins))
+    if sorted(proto["post"]) != sorted(outs):
+        errs.append("provided after the region: %s, reported outputs: %s" % (proto["post"], outs))
+    missing = [x for x in sorted(set(ins) | set(outs)) if x not in proto["declared"]]
+    if missing:
+        errs.append("never declared (PreDeclareVariable): %s" % missing)
+    if sorted(proto["declared"]) != sorted(list(ins) + list(outs)):
+        errs.append("declared %s, expected inputs then outputs %s" % (proto["declared"], sorted(list(ins) + list(outs))))
+    return errs
 
 
 def schedules(routine):
@@ -1054,6 +1103,18 @@ WITNESSES = [
 ]
 
 
+MANDATORY = [
+    # outputs but no inputs: do i = 1, 6: a(i) = 3*i   /   s = 1   /   a = 0
+    [("do", "i", ("lit", 1), ("lit", 6), ("lit", 1), [("assign", "a", [("var", "i")], ("bin", "Mul", ("lit", 3), ("var", "i")))])],
+    [("assign", "s", [], ("lit", 1))],
+    [("wop", "a", False, ("lit", 0))],
+    # inputs but no outputs: if (s > 0) then; end if
+    [("if", ("bin", "Gt", ("var", "s"), ("lit", 0)), [], [])],
+    # neither: if (1 > 0) then; end if
+    [("if", ("bin", "Gt", ("lit", 1), ("lit", 0)), [], [])],
+]
+
+
 def run(ctx):
     from psyclone.psyir.frontend.fortran import FortranReader
     from psyclone.psyir.nodes import Routine
@@ -1086,6 +1147,7 @@ def run(ctx):
     nstores = ctx.pick(3, 5)
 
     n_optdiff = [0]
+    n_proto = [0]
     regions = []        # one per region: {"coq": term, "variants": [variant dict ...], meta}
     n_refused = n_oos = 0
 
@@ -1117,14 +1179,27 @@ def run(ctx):
                 variants = [(False, impl_ctu(nodes, False))]
                 ex = impl_extract(psy, path, lo, hi)
                 if ex[0] in ("ok", "raises"):
-                    variants.append((True, ex))
                     ctu_on = impl_ctu(nodes, True)
-                    if ex[0] != ctu_on[0] or (ex[0] == "ok" and ex != ctu_on):
+                    if ex[0] != ctu_on[0]:
                         n_optdiff[0] += 1
                         if n_optdiff[0] <= 2:
-                            ctx.violation({"property": "C12", "what": "ExtractNode lists differ from get_in_out_parameters "
-                                           "with the ExtractTrans default options", "region": rtxt,
-                                           "extract_node": ex[1:], "call_tree_utils": ctu_on[1:]}, no_input=True)
+                            ctx.violation({"property": "C12", "what": "ExtractNode and get_in_out_parameters (ExtractTrans default "
+                                           "options) disagree on whether the region can be analysed", "region": rtxt,
+                                           "extract_node": ex[0], "call_tree_utils": ctu_on[0]}, no_input=True)
+                    elif ex[0] == "ok":
+                        # direct oracle on the lowered / generated code
+                        errs = protocol_errors(ex[1], ctu_on[1], ctu_on[2])
+                        ctx.hist("protocol_lists", "in%d out%d" % (min(len(ctu_on[1]), 2), min(len(ctu_on[2]), 2)))
+                        if errs:
+                            n_proto[0] += 1
+                            if n_proto[0] <= 3:
+                                ctx.violation({"property": "C12", "what": "the generated extraction code does not declare/provide "
+                                               "the variables the region was reported to need", "routine": txt, "region": rtxt,
+                                               "region_span": (path, lo, hi), "reported_inputs": ctu_on[1],
+                                               "reported_outputs": ctu_on[2], "errors": errs, "generated_calls": ex[1]["psydata_lines"],
+                                               "how_to_replay": "ExtractTrans().apply(<children[lo:hi]>); FortranWriter()(tree); read "
+                                                                "the PreStart / PreDeclareVariable / ProvideVariable calls"})
+                    variants.append((True, ctu_on if ctu_on[0] == "ok" else ex))
                 else:
                     n_refused += 1
                     ctx.hist("extract_refused", ex[1][:60])
@@ -1166,6 +1241,10 @@ def run(ctx):
             vals[("i", ())] = [1, 4, 6][k]
             stores.append((vals, b))
         do_routine(prog, g, "witness:" + key, stores)
+    # mandatory set: regions with no inputs, no outputs, neither
+    for mi, prog in enumerate(MANDATORY):
+        g = Gen12(ctx.rng("m%d" % mi), arrays={"a": [(1, 6)], "b": [(1, 6)], "c": [(1, 6)], "d": [(0, 4), (1, 5)]})
+        do_routine(prog, g, "mandatory%d" % mi, [g.store() for _ in range(2)])
     n_wit = len(regions)
     max_regions = ctx.pick(170, 10 ** 9)
     for pi in range(nprog):
